@@ -336,7 +336,10 @@ fn format_case(tier: Tier) -> BoxedStrategy<Case> {
                 .into_iter()
                 .enumerate()
                 .map(|(i, (n, data))| {
-                    let name = if names.contains(&n) { format!("{n}_{i}") } else { n };
+                    let mut name = n;
+                    while names.contains(&name) {
+                        name = format!("{name}_{i}");
+                    }
                     names.push(name.clone());
                     Col { name, data }
                 })
